@@ -77,8 +77,18 @@ class TapeProp(object):
         return fd
 
     def generate(self, rng, tier, i):
+        case = self.generate_case(rng, tier, i)
+        case["pyopt"] = 1 if rng.chance(0.15) else 0
+        return case
+
+    def generate_case(self, rng, tier, i):
         family = "fault_free" if rng.chance(0.3) else "full"
         unique = set()
+        if i == 1 or (tier == "thorough" and i % 5003 == 0):
+            # many files on one tape: a tape has no directory and no capacity
+            n = rng.choice([1100, 1300, 1500])
+            files = [{"name": "F%d" % j, "ext": "", "ftype": 2, "dtype": 0, "load": j, "exec": j, "len": 1 + j % 3, "content": "counter", "cseed": j} for j in range(n)]
+            return {"family": "many_files", "ops": [{"op": "tool_add_files", "files": files}, {"op": "cli_list"}]}
         if rng.chance(0.012):
             # a peer-written tape at least as long as a disk image, opening leader-blank-leader; listed through the CLI
             ops = []
@@ -122,14 +132,19 @@ class TapeProp(object):
                 elif kind == "peer_record":
                     fd = self.gen_fd(rng, unique)
                     fd["gap"] = rng.choice([0x00, 0x00, 0xFF])
+                    long_silence = [v + d for v in (4096, 5000, 8192, 10000, 16384, 32768, 65536) for d in (-1, 0, 1)]
                     ops.append({"op": "peer_record", "file": fd,
-                                "leader": rng.choice([1, 2, 16, 128, 128, 256, rng.randint(1, 600)]),
-                                "blank": rng.choice([0, 0, 1, 128, rng.randint(0, 256)]),
+                                "leader": rng.choice([1, 2, 16, 128, 128, 256, rng.randint(1, 600)] + ([rng.choice(long_silence)] if rng.chance(0.15) else [])),
+                                "blank": rng.choice([0, 0, 1, 128, rng.randint(0, 256)] + ([rng.choice(long_silence)] if rng.chance(0.15) else [])),
                                 "data_leader": rng.choice([None, 0, 1, 128, rng.randint(0, 300)]),
                                 "blocks": rng.choice([None, None, [255], [1], [rng.randint(1, 255)],
                                                       [rng.randint(1, 255), rng.randint(1, 255), rng.randint(1, 255)]]),
                                 "prefix": rng.choice([None, None, None, [20, 0], [64, 16], [1, 1], [300, 128]]),
                                 "inter": rng.choice([0, 0, 0, 1, 2, 8])})
+                    if ops[-1]["leader"] > 4000 or ops[-1]["blank"] > 4000:
+                        # a long silence in front of the recording only: repeated before every block of a gapped file it
+                        # would make a tape of many megabytes
+                        fd["gap"] = 0
                     if fd["len"] > 4096 and ops[-1]["blocks"] and min(ops[-1]["blocks"]) < 64:
                         # tiny blocks (each with its own leader when gapped) on a long file make a tape of tens of megabytes
                         ops[-1]["blocks"] = [rng.randint(100, 255)]
@@ -140,7 +155,9 @@ class TapeProp(object):
     # -- execution ------------------------------------------------------------------------
     def run(self, case):
         res = Result()
-        w = World()
+        w = World(optimize=int(case.get("pyopt", 0)))      # interpreter configuration of this run's process (python / python -O)
+        if case.get("pyopt"):
+            res.stats["fault:python_minus_O_processes"] += 1
         mods = w.mods
         CassetteFile = mods["cassette"].CassetteFile
         st = {"buf": b"", "cont": None, "model": [], "writers": [], "tool_from": 0, "tool_model_from": 0, "restarted": False,
@@ -253,7 +270,7 @@ class TapeProp(object):
                 raise HarnessError("unknown op %r" % kind)
 
             # ---- invariants after every op (disk-sized tapes: only once the tape is complete; listing 180 KB costs seconds) ----
-            if case["family"].startswith("big_") and k + 1 < len(case["ops"]) - 1:
+            if case["family"].startswith(("big_", "many_")) and k + 1 < len(case["ops"]) - 1:
                 continue
             if self.judge == "C06":
                 self.check_listing(res, w, CassetteFile, st, k)
